@@ -42,11 +42,18 @@ use barter::{
 use barter_data::{
     event::{DataKind, MarketEvent},
     streams::consumer::MarketStreamEvent,
-    subscription::trade::PublicTrade,
+    books::{Level, OrderBook},
+    subscription::{
+        book::{OrderBookEvent, OrderBookL1},
+        candle::Candle,
+        liquidation::Liquidation,
+        trade::PublicTrade,
+    },
 };
 use barter_execution::{
-    AccountEvent, AccountEventKind,
-    error::{ConnectivityError, OrderError},
+    AccountEvent, AccountEventKind, AccountSnapshot, InstrumentAccountSnapshot,
+    balance::{AssetBalance, Balance},
+    error::{ApiError, ConnectivityError, OrderError},
     order::{
         Order, OrderKey, OrderKind, TimeInForce,
         id::{ClientOrderId, OrderId, StrategyId},
@@ -60,7 +67,14 @@ use barter_instrument::{
     asset::AssetIndex,
     exchange::{ExchangeId, ExchangeIndex},
     index::IndexedInstruments,
-    instrument::{Instrument, InstrumentIndex},
+    instrument::{
+        Instrument, InstrumentIndex,
+        kind::{
+            InstrumentKind, future::FutureContract, option::{OptionContract, OptionExercise, OptionKind},
+            perpetual::PerpetualContract,
+        },
+        quote::InstrumentQuoteAsset,
+    },
 };
 use barter_integration::{
     Unrecoverable,
@@ -119,8 +133,16 @@ pub struct CancelS {
 #[derive(Serialize, Deserialize, Clone, Debug, PartialEq, Eq)]
 pub struct MetaS {
     pub oid: u32,
+    /// nanoseconds relative to the harness epoch
     pub t: i64,
     pub filled: D4,
+}
+/// L1 book: its own last_update_time (ns), best bid / ask as (price, amount)
+#[derive(Serialize, Deserialize, Clone, Debug, PartialEq, Eq)]
+pub struct L1S {
+    pub t: i64,
+    pub bid: Option<(D4, D4)>,
+    pub ask: Option<(D4, D4)>,
 }
 #[derive(Serialize, Deserialize, Clone, Debug, PartialEq, Eq)]
 pub enum StS {
@@ -153,6 +175,16 @@ pub struct InstS {
     pub orders: Vec<OrderS>,
     pub pos: Option<PosS>,
     pub last: Option<(i64, D4)>,
+    /// 0 spot, 1 perpetual, 2 future, 3 option
+    #[serde(default)]
+    pub kind: u8,
+    /// contract size (scale 1e-4) and settlement asset name of a derivative
+    #[serde(default)]
+    pub csize: D4,
+    #[serde(default)]
+    pub settle: String,
+    #[serde(default)]
+    pub l1: Option<L1S>,
 }
 #[derive(Serialize, Deserialize, Clone, Debug, PartialEq, Eq)]
 pub enum FilterS {
@@ -174,7 +206,11 @@ pub enum SnapS {
     Cancelled,
     FullyFilled,
     Expired,
-    OpenFailed,
+    /// open failed with the given error class (see `order_error`)
+    OpenFailed(u8),
+    /// in-flight markers
+    Oif,
+    Cif(Option<MetaS>),
 }
 #[derive(Serialize, Deserialize, Clone, Debug, PartialEq, Eq)]
 pub enum EvS {
@@ -183,11 +219,20 @@ pub enum EvS {
     Trading(bool),
     /// `order.st` is ignored; `snap` is the reported state
     OrderSnapshot { order: OrderS, snap: SnapS },
-    CancelResponse { key: KeyS, ok: bool },
+    /// full account snapshot: order snapshots (grouped by the instrument their key names) and,
+    /// if `balances`, a balance for asset 0
+    AccountSnapshot { orders: Vec<(OrderS, SnapS)>, balances: bool },
+    /// `err`: error class of a failed cancel (see `order_error`), ignored when `ok`
+    CancelResponse { key: KeyS, ok: bool, #[serde(default)] err: u8 },
+    BalanceSnapshot { total: D4, t: i64 },
     Trade { inst: usize, buy: bool, qty: D4, price: D4, fee: D4 },
     AccountReconnecting,
     /// price must be a multiple of 0.25 (exact f64 -> Decimal conversion)
     MarketTrade { inst: usize, t: i64, price: D4 },
+    MarketL1 { inst: usize, t: i64, l1: L1S },
+    /// market events without effect on prices: 0 L2 snapshot (empty), 1 L2 update (one-sided),
+    /// 2 candle, 3 liquidation
+    MarketOther { inst: usize, t: i64, kind: u8 },
     MarketReconnecting,
 }
 #[derive(Serialize, Deserialize, Clone, Debug, PartialEq, Eq)]
@@ -214,6 +259,9 @@ pub struct StepS {
     pub op: OpS,
     pub g: GS,
     pub close: CloseS,
+    /// build one-element filters / request lists as OneOrMany::Many(vec![x]) instead of One(x)
+    #[serde(default)]
+    pub many1: bool,
 }
 #[derive(Serialize, Deserialize, Clone, Debug, PartialEq, Eq)]
 pub struct Spec {
@@ -408,25 +456,28 @@ impl RiskManager for StubRisk {
 // Spec -> real values
 // ---------------------------------------------------------------------------------------------
 
-const T0: i64 = 1_700_000_000_000;
+/// harness epoch in ns since 1970; spec times are ns offsets from it (ns resolution on purpose:
+/// comparisons at ms / s granularity must be visible)
+const T0: i64 = 1_700_000_000_000_000_000;
 pub fn time_of(t: i64) -> DateTime<Utc> {
-    Utc.timestamp_millis_opt(T0 + t).unwrap()
+    Utc.timestamp_nanos(T0 + t)
 }
 fn ms_of(t: DateTime<Utc>) -> i64 {
-    t.timestamp_millis() - T0
+    t.timestamp_nanos_opt().expect("time in range") - T0
 }
 
 /// exchanges an instrument can live on; the index builder sorts by the enum order, so this table
 /// is in enum order and `InstS::ex = k` becomes ExchangeIndex(k) when 0..k are all in use
-pub const EXCHANGES: [ExchangeId; 5] = [
+pub const EXCHANGES: [ExchangeId; 6] = [
+    ExchangeId::Simulated,
+    ExchangeId::Mock,
     ExchangeId::BinanceSpot,
-    ExchangeId::Bitfinex,
-    ExchangeId::Coinbase,
+    ExchangeId::Bitvavo,
+    ExchangeId::Bithumb,
     ExchangeId::Kraken,
-    ExchangeId::Okx,
 ];
 /// ids for link-map entries beyond the engine's exchanges
-const SPARE: [ExchangeId; 4] = [ExchangeId::Mock, ExchangeId::Simulated, ExchangeId::Other, ExchangeId::Gemini];
+const SPARE: [ExchangeId; 4] = [ExchangeId::Other, ExchangeId::Okx, ExchangeId::Gemini, ExchangeId::Htx];
 
 fn side_of(buy: bool) -> Side {
     if buy { Side::Buy } else { Side::Sell }
@@ -498,15 +549,17 @@ fn order_of(o: &OrderS) -> Order<ExchangeIndex, InstrumentIndex, ActiveOrderStat
         state: active_of(&o.st),
     }
 }
-fn one_or_many<T>(v: Vec<T>) -> OneOrMany<T> {
-    OneOrMany::from_iter(v)
+/// `many1`: a single element stays `Many(vec![x])` (the constructors normalise it to `One(x)`)
+fn one_or_many<T>(v: Vec<T>, many1: bool) -> OneOrMany<T> {
+    if many1 && v.len() == 1 { OneOrMany::Many(v) } else { OneOrMany::from_iter(v) }
 }
-fn filter_of(f: &FilterS) -> InstrumentFilter {
+fn filter_of(f: &FilterS, many1: bool) -> InstrumentFilter {
+    let one_or_many = |v| one_or_many(v, many1);
     match f {
         FilterS::None => InstrumentFilter::None,
-        FilterS::Exchanges(l) => InstrumentFilter::Exchanges(one_or_many(l.iter().map(|e| ExchangeIndex(*e)).collect())),
+        FilterS::Exchanges(l) => InstrumentFilter::Exchanges(self::one_or_many(l.iter().map(|e| ExchangeIndex(*e)).collect(), many1)),
         FilterS::Instruments(l) => {
-            InstrumentFilter::Instruments(one_or_many(l.iter().map(|e| InstrumentIndex(*e)).collect()))
+            InstrumentFilter::Instruments(self::one_or_many(l.iter().map(|e| InstrumentIndex(*e)).collect(), many1))
         }
         FilterS::Underlyings(l) => InstrumentFilter::Underlyings(one_or_many(
             l.iter()
@@ -518,16 +571,67 @@ fn filter_of(f: &FilterS) -> InstrumentFilter {
         )),
     }
 }
-fn command_of(c: &CmdS) -> Command {
+fn command_of(c: &CmdS, many1: bool) -> Command {
     match c {
-        CmdS::SendCancels(l) => Command::SendCancelRequests(one_or_many(l.iter().map(cancel_of).collect())),
-        CmdS::SendOpens(l) => Command::SendOpenRequests(one_or_many(l.iter().map(open_of).collect())),
-        CmdS::ClosePositions(f) => Command::ClosePositions(filter_of(f)),
-        CmdS::CancelOrders(f) => Command::CancelOrders(filter_of(f)),
+        CmdS::SendCancels(l) => Command::SendCancelRequests(one_or_many(l.iter().map(cancel_of).collect(), many1)),
+        CmdS::SendOpens(l) => Command::SendOpenRequests(one_or_many(l.iter().map(open_of).collect(), many1)),
+        CmdS::ClosePositions(f) => Command::ClosePositions(filter_of(f, many1)),
+        CmdS::CancelOrders(f) => Command::CancelOrders(filter_of(f, many1)),
     }
 }
 
-fn event_of(ev: &EvS, eng: &Eng) -> EngineEvent<DataKind> {
+/// every error class an order response can carry
+fn order_error(k: u8) -> OrderError<AssetIndex, InstrumentIndex> {
+    match k % 10 {
+        0 => OrderError::Connectivity(ConnectivityError::Timeout),
+        1 => OrderError::Connectivity(ConnectivityError::ExchangeOffline(ExchangeId::Kraken)),
+        2 => OrderError::Connectivity(ConnectivityError::Socket("reset".into())),
+        3 => OrderError::Rejected(ApiError::RateLimit),
+        4 => OrderError::Rejected(ApiError::AssetInvalid(AssetIndex(0), "x".into())),
+        5 => OrderError::Rejected(ApiError::InstrumentInvalid(InstrumentIndex(0), "x".into())),
+        6 => OrderError::Rejected(ApiError::BalanceInsufficient(AssetIndex(1), "x".into())),
+        7 => OrderError::Rejected(ApiError::OrderRejected("no".into())),
+        8 => OrderError::Rejected(ApiError::OrderAlreadyCancelled),
+        _ => OrderError::Rejected(ApiError::OrderAlreadyFullyFilled),
+    }
+}
+fn snap_state(snap: &SnapS) -> OrderState<AssetIndex, InstrumentIndex> {
+    match snap {
+        SnapS::Open(m) => OrderState::active(meta_of(m)),
+        SnapS::Cancelled => OrderState::inactive(Cancelled {
+            id: OrderId::new("x"),
+            time_exchange: time_of(7),
+        }),
+        SnapS::FullyFilled => OrderState::fully_filled(),
+        SnapS::Expired => OrderState::expired(),
+        SnapS::OpenFailed(k) => OrderState::Inactive(InactiveOrderState::OpenFailed(order_error(*k))),
+        SnapS::Oif => OrderState::active(OpenInFlight),
+        SnapS::Cif(m) => OrderState::active(CancelInFlight { order: m.as_ref().map(meta_of) }),
+    }
+}
+fn order_snapshot(order: &OrderS, snap: &SnapS) -> Order<ExchangeIndex, InstrumentIndex, OrderState<AssetIndex, InstrumentIndex>> {
+    Order {
+        key: key_of(&order.key),
+        side: side_of(order.buy),
+        price: d4(order.price),
+        quantity: d4(order.qty),
+        kind: kind_of(order.kind),
+        time_in_force: tif_of(order.tif),
+        state: snap_state(snap),
+    }
+}
+fn level_of(l: &(D4, D4)) -> Level {
+    Level::new(d4(l.0), d4(l.1))
+}
+fn l1_of(l: &L1S) -> OrderBookL1 {
+    OrderBookL1 {
+        last_update_time: time_of(l.t),
+        best_bid: l.bid.as_ref().map(level_of),
+        best_ask: l.ask.as_ref().map(level_of),
+    }
+}
+
+fn event_of(ev: &EvS, eng: &Eng, many1: bool) -> EngineEvent<DataKind> {
     let first_exchange = *eng.state.connectivity.exchange_ids().next().expect("an exchange");
     let n_ex = eng.state.connectivity.exchanges.len();
     let acct = |ex: usize, kind: AccountEventKind<ExchangeIndex, AssetIndex, InstrumentIndex>| {
@@ -537,47 +641,75 @@ fn event_of(ev: &EvS, eng: &Eng) -> EngineEvent<DataKind> {
             kind,
         }))
     };
+    let market = |inst: usize, t: i64, kind: DataKind| {
+        let ex = eng
+            .state
+            .instruments
+            .0
+            .get_index(inst)
+            .map(|(_, s)| s.instrument.exchange.index())
+            .unwrap_or(0);
+        let exchange = *eng.state.connectivity.exchange_ids().nth(ex).unwrap_or(&first_exchange);
+        EngineEvent::Market(MarketStreamEvent::Item(MarketEvent {
+            time_exchange: time_of(t),
+            // decoy: the engine must use time_exchange
+            time_received: time_of(t + 5_000_000_000),
+            exchange,
+            instrument: InstrumentIndex(inst),
+            kind,
+        }))
+    };
     match ev {
         EvS::Shutdown => EngineEvent::Shutdown(barter::shutdown::Shutdown),
-        EvS::Command(c) => EngineEvent::Command(command_of(c)),
+        EvS::Command(c) => EngineEvent::Command(command_of(c, many1)),
         EvS::Trading(b) => EngineEvent::TradingStateUpdate(if *b { TradingState::Enabled } else { TradingState::Disabled }),
         EvS::OrderSnapshot { order, snap } => {
-            let state: OrderState<AssetIndex, InstrumentIndex> = match snap {
-                SnapS::Open(m) => OrderState::active(meta_of(m)),
-                SnapS::Cancelled => OrderState::inactive(Cancelled {
-                    id: OrderId::new("x"),
-                    time_exchange: time_of(0),
-                }),
-                SnapS::FullyFilled => OrderState::fully_filled(),
-                SnapS::Expired => OrderState::expired(),
-                SnapS::OpenFailed => OrderState::Inactive(InactiveOrderState::OpenFailed(OrderError::Connectivity(
-                    ConnectivityError::Timeout,
-                ))),
-            };
+            // the account stream's own exchange tag is a decoy (it only touches connectivity)
+            acct(order.key.ex + 1, AccountEventKind::OrderSnapshot(Snapshot(order_snapshot(order, snap))))
+        }
+        EvS::AccountSnapshot { orders, balances } => {
+            // group the order snapshots by the instrument their key names, keeping their order
+            let mut groups: Vec<InstrumentAccountSnapshot<ExchangeIndex, AssetIndex, InstrumentIndex>> = vec![];
+            for (o, sn) in orders {
+                let inst = InstrumentIndex(o.key.inst);
+                let snap = order_snapshot(o, sn);
+                match groups.last_mut() {
+                    Some(g) if g.instrument == inst => g.orders.push(snap),
+                    _ => groups.push(InstrumentAccountSnapshot { instrument: inst, orders: vec![snap] }),
+                }
+            }
             acct(
-                order.key.ex,
-                AccountEventKind::OrderSnapshot(Snapshot(Order {
-                    key: key_of(&order.key),
-                    side: side_of(order.buy),
-                    price: d4(order.price),
-                    quantity: d4(order.qty),
-                    kind: kind_of(order.kind),
-                    time_in_force: tif_of(order.tif),
-                    state,
-                })),
+                0,
+                AccountEventKind::Snapshot(AccountSnapshot {
+                    exchange: ExchangeIndex(0),
+                    balances: if *balances {
+                        vec![AssetBalance { asset: AssetIndex(0), balance: Balance::new(d4(50_000), d4(40_000)), time_exchange: time_of(3) }]
+                    } else {
+                        vec![]
+                    },
+                    instruments: groups,
+                }),
             )
         }
-        EvS::CancelResponse { key, ok } => acct(
+        EvS::BalanceSnapshot { total, t } => acct(
+            0,
+            AccountEventKind::BalanceSnapshot(Snapshot(AssetBalance {
+                asset: AssetIndex(1),
+                balance: Balance::new(d4(*total), d4(*total / 2)),
+                time_exchange: time_of(*t),
+            })),
+        ),
+        EvS::CancelResponse { key, ok, err } => acct(
             key.ex,
             AccountEventKind::OrderCancelled(barter_execution::order::OrderEvent {
                 key: key_of(key),
                 state: if *ok {
                     Ok(Cancelled {
                         id: OrderId::new("x"),
-                        time_exchange: time_of(0),
+                        time_exchange: time_of(9),
                     })
                 } else {
-                    Err(OrderError::Connectivity(ConnectivityError::Timeout))
+                    Err(order_error(*err))
                 },
             }),
         ),
@@ -588,7 +720,7 @@ fn event_of(ev: &EvS, eng: &Eng) -> EngineEvent<DataKind> {
                 order_id: OrderId::new("o"),
                 instrument: InstrumentIndex(*inst),
                 strategy: StrategyId::new("0"),
-                time_exchange: time_of(0),
+                time_exchange: time_of(11),
                 side: side_of(*buy),
                 price: d4(*price),
                 quantity: d4(*qty),
@@ -596,28 +728,40 @@ fn event_of(ev: &EvS, eng: &Eng) -> EngineEvent<DataKind> {
             }),
         ),
         EvS::AccountReconnecting => EngineEvent::Account(AccountStreamEvent::Reconnecting(first_exchange)),
-        EvS::MarketTrade { inst, t, price } => {
-            let ex = eng
-                .state
-                .instruments
-                .0
-                .get_index(*inst)
-                .map(|(_, s)| s.instrument.exchange.index())
-                .unwrap_or(0);
-            let exchange = *eng.state.connectivity.exchange_ids().nth(ex).unwrap_or(&first_exchange);
-            EngineEvent::Market(MarketStreamEvent::Item(MarketEvent {
-                time_exchange: time_of(*t),
-                time_received: time_of(*t),
-                exchange,
-                instrument: InstrumentIndex(*inst),
-                kind: DataKind::Trade(PublicTrade {
-                    id: "m".to_string(),
-                    price: (*price as f64) / 10000.0,
-                    amount: 1.0,
-                    side: Side::Buy,
+        EvS::MarketTrade { inst, t, price } => market(
+            *inst,
+            *t,
+            DataKind::Trade(PublicTrade {
+                id: "m".to_string(),
+                price: (*price as f64) / 10000.0,
+                amount: 1.0,
+                side: Side::Buy,
+            }),
+        ),
+        EvS::MarketL1 { inst, t, l1 } => market(*inst, *t, DataKind::OrderBookL1(l1_of(l1))),
+        EvS::MarketOther { inst, t, kind } => market(
+            *inst,
+            *t,
+            match kind % 4 {
+                0 => DataKind::OrderBook(OrderBookEvent::Snapshot(OrderBook::new(1, None, Vec::<Level>::new(), Vec::<Level>::new()))),
+                1 => DataKind::OrderBook(OrderBookEvent::Update(OrderBook::new(
+                    2,
+                    Some(time_of(*t)),
+                    vec![Level::new(d4(123_400), d4(5_000))],
+                    Vec::<Level>::new(),
+                ))),
+                2 => DataKind::Candle(Candle {
+                    close_time: time_of(*t),
+                    open: 1.0,
+                    high: 4.0,
+                    low: 0.5,
+                    close: 2.0,
+                    volume: 10.0,
+                    trade_count: 3,
                 }),
-            }))
-        }
+                _ => DataKind::Liquidation(Liquidation { side: Side::Sell, price: 3.25, quantity: 2.0, time: time_of(*t) }),
+            },
+        ),
         EvS::MarketReconnecting => EngineEvent::Market(MarketStreamEvent::Reconnecting(first_exchange)),
     }
 }
@@ -635,11 +779,28 @@ pub fn build(spec: &Spec) -> Built {
     assert!(!spec.instruments.is_empty(), "at least one instrument");
     let mut bld = IndexedInstruments::builder();
     for (j, i) in spec.instruments.iter().enumerate() {
-        bld = bld.add_instrument(Instrument::spot(
+        let settle = || barter_instrument::asset::Asset::from(if i.settle.is_empty() { i.quote.as_str() } else { i.settle.as_str() });
+        let csize = if i.csize == 0 { Decimal::ONE } else { d4(i.csize) };
+        let kind = match i.kind % 4 {
+            0 => InstrumentKind::Spot,
+            1 => InstrumentKind::Perpetual(PerpetualContract { contract_size: csize, settlement_asset: settle() }),
+            2 => InstrumentKind::Future(FutureContract { contract_size: csize, settlement_asset: settle(), expiry: time_of(86_400_000_000_000) }),
+            _ => InstrumentKind::Option(OptionContract {
+                contract_size: csize,
+                settlement_asset: settle(),
+                kind: if j % 2 == 0 { OptionKind::Call } else { OptionKind::Put },
+                exercise: OptionExercise::European,
+                expiry: time_of(86_400_000_000_000),
+                strike: d4(1_000_000),
+            }),
+        };
+        bld = bld.add_instrument(Instrument::new(
             EXCHANGES[i.ex % EXCHANGES.len()],
             format!("x{}_i{:02}", i.ex, j),
             format!("X{}I{:02}", i.ex, j),
             Underlying::new(i.base.as_str(), i.quote.as_str()),
+            InstrumentQuoteAsset::UnderlyingQuote,
+            kind,
             None,
         ));
     }
@@ -680,6 +841,9 @@ pub fn build(spec: &Spec) -> Built {
         }
         if let Some((t, p)) = &i.last {
             ist.data.last_traded_price = Some(Timed::new(d4(*p), time_of(*t)));
+        }
+        if let Some(l1) = &i.l1 {
+            ist.data.l1 = l1_of(l1);
         }
     }
 
@@ -938,11 +1102,31 @@ fn c_insts_obs(eng: &Eng) -> Vec<(String, String, String)> {
                 .last_traded_price
                 .as_ref()
                 .map(|t| format!("({}%Z, {}%Z)", zi(ms_of(t.time)), zd(t.value))));
-            (orders, pos, last)
+            let data = format!("(MD {} {})", c_l1(&s.data.l1), last);
+            (orders, pos, data)
         })
         .collect()
 }
 
+fn c_level(l: &Option<Level>) -> String {
+    opt(l.as_ref().map(|l| format!("({}%Z, {}%Z)", zd(l.price), zd(l.amount))))
+}
+fn c_l1(l: &OrderBookL1) -> String {
+    format!("(L1 {} {} {})", zi(ms_of(l.last_update_time)), c_level(&l.best_bid), c_level(&l.best_ask))
+}
+fn c_snap(snap: &SnapS) -> String {
+    match snap {
+        SnapS::Open(m) => format!("(SnOpen {})", c_meta_s(m)),
+        SnapS::Oif => "SnOIF".into(),
+        SnapS::Cif(m) => format!("(SnCIF {})", opt(m.as_ref().map(c_meta_s))),
+        _ => "SnInactive".into(),
+    }
+}
+fn c_snap_order(order: &OrderS) -> String {
+    let mut o = order.clone();
+    o.st = StS::Oif;
+    c_order(&order_of(&o))
+}
 fn c_filter(f: &FilterS) -> String {
     let ns = |l: &Vec<usize>| list(&l.iter().map(|x| format!("{}%N", x)).collect::<Vec<_>>());
     match f {
@@ -971,22 +1155,18 @@ fn c_event(e: &EvS) -> String {
         EvS::Shutdown => "EvShutdown".into(),
         EvS::Command(c) => format!("(EvCommand {})", c_cmd(c)),
         EvS::Trading(x) => format!("(EvTradingState {})", b(*x)),
-        EvS::OrderSnapshot { order, snap } => {
-            let mut o = order.clone();
-            o.st = StS::Oif;
-            format!(
-                "(EvOrderSnapshot {} {})",
-                c_order(&order_of(&o)),
-                match snap {
-                    SnapS::Open(m) => format!("(SnOpen {})", c_meta_s(m)),
-                    _ => "SnInactive".into(),
-                }
-            )
-        }
-        EvS::CancelResponse { key, ok } => format!("(EvCancelResponse {} {})", c_key(&key_of(key)), b(*ok)),
+        EvS::OrderSnapshot { order, snap } => format!("(EvOrderSnapshot {} {})", c_snap_order(order), c_snap(snap)),
+        EvS::AccountSnapshot { orders, .. } => format!(
+            "(EvAccountSnapshot {})",
+            list(&orders.iter().map(|(o, sn)| pair(&c_snap_order(o), &c_snap(sn))).collect::<Vec<_>>())
+        ),
+        EvS::BalanceSnapshot { .. } => "EvOther".into(),
+        EvS::CancelResponse { key, ok, .. } => format!("(EvCancelResponse {} {})", c_key(&key_of(key)), b(*ok)),
         EvS::Trade { inst, buy, qty, .. } => format!("(EvTrade {} {} {})", inst, c_side(side_of(*buy)), zd(d4(*qty))),
         EvS::AccountReconnecting => "EvAccountReconnecting".into(),
         EvS::MarketTrade { inst, t, price } => format!("(EvMarketTrade {} {} {})", inst, zi(*t), zd(d4(*price))),
+        EvS::MarketL1 { inst, t, l1 } => format!("(EvMarketL1 {} {} {})", inst, zi(*t), c_l1(&l1_of(l1))),
+        EvS::MarketOther { .. } => "EvOther".into(),
         EvS::MarketReconnecting => "EvMarketReconnecting".into(),
     }
 }
@@ -1071,11 +1251,21 @@ fn op_tag(o: &OpS) -> String {
                 EvS::Command(CmdS::CancelOrders(_)) => "cmd_cancel_orders",
                 EvS::Trading(true) => "trading_enable",
                 EvS::Trading(false) => "trading_disable",
+                EvS::OrderSnapshot { snap: SnapS::Oif, .. } | EvS::OrderSnapshot { snap: SnapS::Cif(_), .. } => "order_snapshot_marker",
+                EvS::OrderSnapshot { snap: SnapS::OpenFailed(_), .. } => "order_snapshot_open_failed",
                 EvS::OrderSnapshot { .. } => "order_snapshot",
+                EvS::AccountSnapshot { .. } => "account_snapshot",
+                EvS::BalanceSnapshot { .. } => "balance_snapshot",
+                EvS::CancelResponse { ok: false, err, .. } if *err >= 3 => "cancel_response_api_error",
                 EvS::CancelResponse { .. } => "cancel_response",
                 EvS::Trade { .. } => "trade",
                 EvS::AccountReconnecting => "account_reconnecting",
                 EvS::MarketTrade { .. } => "market_trade",
+                EvS::MarketL1 { l1, .. } if l1.bid.is_some() && l1.ask.is_some() => "market_l1_two_sided",
+                EvS::MarketL1 { .. } => "market_l1_one_sided_or_empty",
+                EvS::MarketOther { kind, .. } if kind % 4 < 2 => "market_l2_book",
+                EvS::MarketOther { kind, .. } if kind % 4 == 2 => "market_candle",
+                EvS::MarketOther { .. } => "market_liquidation",
                 EvS::MarketReconnecting => "market_reconnecting",
             }
         ),
@@ -1139,9 +1329,27 @@ pub fn run(spec: &Spec) -> Ran {
     for l in &spec.links {
         tags.push(format!("init_link_{}", c_lstat(*l)));
     }
+    for i in &spec.instruments {
+        tags.push(format!("inst_kind_{}", ["spot", "perpetual", "future", "option"][(i.kind % 4) as usize]));
+        if i.kind % 4 != 0 && i.csize != 10_000 && i.csize != 0 {
+            tags.push("inst_contract_size_not_1".into());
+        }
+        if i.kind % 4 != 0 && !i.settle.is_empty() && i.settle != i.quote {
+            tags.push("inst_settlement_not_quote".into());
+        }
+        if i.l1.as_ref().is_some_and(|l| l.bid.is_some() && l.ask.is_some()) {
+            tags.push("inst_price_from_l1".into());
+        }
+    }
+    if spec.links.len() >= 3 && spec.links[1..spec.links.len() - 1].iter().any(|l| *l == LinkS::Missing) {
+        tags.push("linkless_exchange_in_the_middle".into());
+    }
     for st in &spec.steps {
         install(&mut bt.eng, st);
         tags.push(op_tag(&st.op));
+        if st.many1 {
+            tags.push("one_or_many_many1".into());
+        }
         let mut stags = vec![];
         let res: String = match &st.op {
             OpS::SetLink(e, s) => {
@@ -1162,7 +1370,7 @@ pub fn run(spec: &Spec) -> Ran {
                 if let Some(t) = filter_tag(c) {
                     tags.push(t)
                 }
-                let cmd = command_of(c);
+                let cmd = command_of(c, st.many1);
                 let eng = &mut bt.eng;
                 let out = vh_common::catch(std::panic::AssertUnwindSafe(|| eng.action(&cmd)));
                 match out {
@@ -1176,7 +1384,7 @@ pub fn run(spec: &Spec) -> Ran {
                         tags.push(t)
                     }
                 }
-                let event = event_of(ev, &bt.eng);
+                let event = event_of(ev, &bt.eng, st.many1);
                 let eng = &mut bt.eng;
                 let out = vh_common::catch(std::panic::AssertUnwindSafe(|| eng.process(event)));
                 match out {
